@@ -106,7 +106,17 @@ func setup() {
 			prof[200+k] ^= byte(i*37 + k)
 		}
 		p, _ := build.PNG{W: uint32(10 + i), H: 7, Depth: 8, ColorType: 2, Pre: []build.Chunk{{Type: "tEXt", Data: make([]byte, 30+i)}, build.ICCPChunk("p", prof, 6)}, IDAT: make([]byte, 3000)}.Bytes()
-		j, _ := build.JPEG{Segs: append(build.ICCSegs(prof, []int{100 + i}), build.Seg{Marker: 0xC0, Data: build.SOF(8, 7, uint16(10+i), [][3]byte{{1, 0x11, 0}})}), SOS: []byte{1, 1, 0, 0, 63, 0}, Entropy: make([]byte, 3000)}.Bytes()
+		// every fourth JPEG spreads its profile over 18..40 small segments (writers with small buffers, profiles of
+		// megabytes): per-file tables sized by the chunk count
+		chunkSizes := []int{100 + i}
+		if i%4 == 3 {
+			n := 18 + i%23
+			chunkSizes = nil
+			for k := 0; k < n-1; k++ {
+				chunkSizes = append(chunkSizes, len(prof)/n)
+			}
+		}
+		j, _ := build.JPEG{Segs: append(build.ICCSegs(prof, chunkSizes), build.Seg{Marker: 0xC0, Data: build.SOF(8, 7, uint16(10+i), [][3]byte{{1, 0x11, 0}})}), SOS: []byte{1, 1, 0, 0, 63, 0}, Entropy: make([]byte, 3000)}.Bytes()
 		w, _ := build.WebP{Chunks: []build.RIFFChunk{{FourCC: "VP8X", Data: build.VP8XHeader(0x20, uint32(9+i), 6)}, {FourCC: "ICCP", Data: prof}, {FourCC: "VP8L", Data: build.VP8LHeader(uint16(9+i), 6, false)}}}.Bytes()
 		family = append(family, p, j, w)
 	}
